@@ -115,7 +115,10 @@ class C19(Plugin):
 
         def one(us):
             try:
-                D = discover(list(us), **qprops.flags(delimiters=list(delims) or None, cutoff=cutoff.v if cutoff is not None else None,
+                # the argument is Iterable[str]: a list, a tuple, a one-shot generator, a set (any order), a dict view
+                kind = (len(us) + len(meta)) % 5
+                arg = [list(us), tuple(us), (u for u in us), set(us), dict.fromkeys(us).keys()][kind]
+                D = discover(arg, **qprops.flags(delimiters=list(delims) or None, cutoff=cutoff.v if cutoff is not None else None,
                                                       metaprefix=meta, converter=conv))
             except ValueError as e:
                 return [1] if type(e).__module__.startswith("curies") else [2]
